@@ -870,6 +870,7 @@ func c11Check(c *c11Ctx, cfg c11Cfg, items []c11Item, replay func() any, logs fu
 	rxs := make([]*c11Rx, len(msgs))
 	touch := make(map[string][]c11Touch, len(exp))
 	reportedOversize := map[string]bool{}
+	inFailed := map[string]bool{} // keys carried by a message that could not be serialised (reported there)
 	eorMsg := map[int]int{}
 	var shape []string
 	for i, m := range msgs {
@@ -881,6 +882,12 @@ func c11Check(c *c11Ctx, cfg c11Cfg, items []c11Item, replay func() any, logs fu
 		}
 		if err != nil {
 			ann, wd, eor := c11StructKeys(m, cfg)
+			for _, k := range ann {
+				inFailed[k] = true
+			}
+			for _, k := range wd {
+				inFailed[k] = true
+			}
 			bad := ""
 			for _, k := range ann {
 				if !oversize[k] {
@@ -1001,12 +1008,18 @@ func c11Check(c *c11Ctx, cfg c11Cfg, items []c11Item, replay func() any, logs fu
 			continue
 		}
 		if len(ts) == 0 {
-			c.Outcome("violation:" + c11KindName[it.Kind] + "-lost")
-			car := "mp"
-			if it.Kind == c11Ann && c11IsClassic(it.Fam, *it.Spec) {
-				car = "classic"
+			if inFailed[k] {
+				continue // lost with the message that could not be serialised; reported above
 			}
-			viol(fmt.Sprintf("%s-lost:%s:%s", c11KindName[it.Kind], fam, car), "%s: the last change is item %d (%s) but no emitted message mentions it", name, i, c11KindName[it.Kind])
+			c.Outcome("violation:" + c11KindName[it.Kind] + "-lost")
+			key := "withdraw-lost:" + fam
+			if it.Kind == c11Ann {
+				key = "announce-lost:" + fam + ":mp"
+				if c11IsClassic(it.Fam, *it.Spec) {
+					key = "announce-lost:" + fam + ":classic"
+				}
+			}
+			viol(key, "%s: the last change is item %d (%s) but no emitted message mentions it", name, i, c11KindName[it.Kind])
 			continue
 		}
 		last := ts[len(ts)-1]
